@@ -23,11 +23,11 @@ import (
 
 // poolProgram is one deterministic unit of work of the differential test.
 type poolProgram struct {
-	idx   int
-	root  *vg.Node
-	mode  vg.WriterMode
-	fail  int    // 0 = complete the program; 1 = pooled writer fails midway and is abandoned; 2 = owned writer fails midway, then Free; 3 = owned writer fails, Free, Reset, reuse
-	want  []byte // sequential result (reference encoding), nil for failing programs
+	idx  int
+	root *vg.Node
+	mode vg.WriterMode
+	fail int    // 0 = complete the program; 1 = pooled writer fails midway and is abandoned; 2 = owned writer fails midway, then Free; 3 = owned writer fails, Free, Reset, reuse
+	want []byte // sequential result (reference encoding), nil for failing programs
 }
 
 func drawProgram(seed uint64, idx int) poolProgram {
